@@ -89,6 +89,21 @@ CLAIMED["C20"] = (
     "DESIGN.md §5 C20",
 )
 
+CLAIMED["C10"] = (
+    "Generic kernel-checked theorem: if a declaration's successor list is adequate for the parent's content model "
+    "(child in model; no successor ordered before it; every later tag up to the first later required slot listed) then "
+    "inserting the child into a parent holding ANY conforming sibling list - any permitted tags, multiplicities and, for "
+    "repeatable mixed content, interleavings - leaves the children in schema order; plus get_or_add creates at most one, "
+    "remove removes all, change-to leaves exactly one choice member.  The adequacy side condition is closed by `decide "
+    "+kernel` for every row of a table REGENERATED on each run by reflection over the live element classes (closures of the "
+    "generated _insert_* methods) and flattening of the shipped XSDs (307 rows today).  Translator cross-check: the real "
+    "_insert_x is run on real parents for every row x the property's context enumeration and compared with the model.",
+    "Trusted: XSD flattener + closure reflection; wildcard (xs:any) content opaque; OPC part types (ct:Types, pr:Relationships, "
+    "cp:coreProperties/xs:all) not modelled; hand-written lxml insertions (append/addnext) are not rows of the table.",
+    "translator-regenerated declaration table + generic Lean insertion theorem + `decide +kernel` per class + exhaustive context replay",
+    "DESIGN.md §5 C10",
+)
+
 NOT_YET = {}
 
 
